@@ -62,6 +62,11 @@ UNIT = dict(
                        (r'input->eof\(\) \|\| !getline\(\*input, token, LENGTH_SEPARATOR\)', 'env_eof(input) || !env_getline(input, &token)', 1),
                        (r'token == NULL_VALUE', 'env_tok_null(input, token)', 2),
                        (r'parseInt\(token\.c_str\(\), 10, ([^,]+), ([^,]+), &result\)', lambda m: 'env_tok_int(input, token, %s, %s, &result)' % (m.group(1), m.group(2)), 2)]),
+        dict(_inl, name='isIgnored', cname='STT_isIgnored', static=True, self='STT'),
+        dict(file=DT_CPP, name='StringDataType::writeSymbols', cname='STT_writeSymbols', self='STT',
+             cfg=dict(methods={'dataAt': 'SymbolString_dataAt_nc', 'eof': 'cs_eof', 'peek': 'cs_peek', 'get': 'cs_get', 'clear': 'tok2_clear', 'push_back': 'tok2_push', 'c_str': 'tok2_cstr'},
+                      ref_returns=['SymbolString_dataAt_nc'], own_methods={'hasFlag': ('STT_hasFlag', 'self'), 'isIgnored': ('STT_isIgnored', 'self')},
+                      type_map={'istringstream': 'struct cstream', 'string': 'struct tok2'}, text_subs=[(r'\bparseInt\(tok2_cstr\(&token\), 16, 0, 0xff, &result\)', 'env_hex2(&token, &result)')])),
         dict(file=DT_CPP, name='DateTimeDataType::readSymbols', cname='DTT_readSymbols', self='DTT',
              stream_out=dict(vars=['output'], str_macros=('NULL_VALUE',), min=15)),
     ],
@@ -89,3 +94,6 @@ for _n in ('bti', 'hti', 'vti', 'btm', 'htm', 'vtm', 'min', 'ttm', 'tth', 'ttq',
     R('wr_' + _n, 'h_wr_' + _n, None, unwind=14, defines=_D, cost=20, props=('C07', 'C20'))
 R('wr_day', 'h_wr_day', None, unwind=14, defines=_D, cost=150, timeout=1800, props=('C07', 'C20'))
 R('wr_dtm', 'h_wr_dtm', None, unwind=14, defines=_D, cost=300, timeout=2400, props=('C07', 'C20'))
+R('rt_hex', 'h_rt_hex', None, unwind=14, defines=_D, cost=30, props=('C06', 'C20'))
+R('rt_str', 'h_rt_str', None, unwind=14, defines=_D, cost=30, props=('C06', 'C20'))
+R('wr_hex', 'h_wr_hex', None, unwind=14, defines=_D, cost=60, props=('C06', 'C07', 'C20'), bounded='hex input texts of up to 8 characters')
